@@ -20,7 +20,10 @@ RULE = ("kernel records printed by the Coq kernel printers (k_stat, k_status, k_
         "EACCES x re-read) for name/status/cpu_num; 1-8 threads with their own names, vanishing threads, dead/zombie owner; "
         "name() as a str in child interpreters started with each available file-system encoding (utf-8; ascii = LC_ALL=C with "
         "UTF-8 mode and locale coercion off) for names of bytes >= 0x80 that are well-formed UTF-8 (2/3/4-byte, range ends), "
-        "truncated, overlong, surrogates, > U+10FFFF, stray bytes; ppid_map/pids over /proc listings with present/vanished/unreadable processes and non-numeric entries; plus a malformed "
+        "truncated, overlong, surrogates, > U+10FFFF, stray bytes; name() histories on ONE Process object (2-4 kernel states, same pid: extended from "
+        "cmdline, exec to a program sharing the 15-byte comm, argv[0] matching or not, blanks as separators, zombie with empty "
+        "cmdline, cmdline EACCES/ESRCH/ENOENT, stat gone/denied, renamed to a short comm, PID reused; str()/repr()/as_dict()/"
+        "name() touches in between); ppid_map/pids over /proc listings with present/vanished/unreadable processes and non-numeric entries; plus a malformed "
         "stream (truncated / mutated records, broken /proc/stat, rdev-0 files, unreadable thread files) compared with the model "
         "only. A case is non-trivial when its name is non-empty or a counter is non-zero; distinct = distinct canonical case hash.")
 TRUSTED = ["correspondence harness props/C06.py + pv/ (fake /proc tree; os.scandir/os.stat patched for /dev and /dev/pts under "
@@ -1017,11 +1020,13 @@ def gen_tables(impl_dir, out_dir):
 
 
 MANIFEST = {
-    "text": "59 theorems (Coq 8.16, all closed under the global context) over the Gallina transcription of _parse_stat_file, the "
+    "text": "66 theorems (Coq 8.16, all closed under the global context) over the Gallina transcription of _parse_stat_file, the "
             "stat-fed accessors, boot_time(), the nested wrap_exceptions + Process.status() front end, the four status-file regex "
             "scanners, threads(), pids()/ppid_map() and get_terminal_map() with its two glob() calls. For EVERY kernel-formatted stat "
             "record (any comm bytes of any length, every record length N >= 39 incl. 39..41 without blkio, any digit strings): "
-            "name/ppid/cpu_num exact, name() as a str = os.fsdecode(comm) under the interpreter's file-system encoding (utf-8 / ascii / "
+            "name/ppid/cpu_num exact; the public name() with the object's remembered _name as model state: memoryless on POSIX, every answer of "
+            "any history = the documented function (comm, or basename(argv[0]) extending a >= 15-byte comm) of the kernel state at that "
+            "moment; name() as a str = os.fsdecode(comm) under the interpreter's file-system encoding (utf-8 / ascii / "
             "latin-1 + surrogateescape) with os.fsencode(os.fsdecode(b)) = b proved for every byte string and each encoding; status() = documented constant for the 12 letters and '?' for every other ASCII token, the "
             "generated PROC_STATUSES table proved equal to the documented mapping in both directions, ZombieProcess -> STATUS_ZOMBIE in "
             "the front end; cpu_times = ticks/CLK (iowait from field 42, 0 when absent); create_time = start/CLK + btime of /proc/stat "
